@@ -89,7 +89,38 @@ class C13(HistoryProp):
     genome = {'quick': 200, 'thorough': 300}
     track_fresh = True
 
+    def decode_interleaved(self, src):
+        """two uses of one NON-GROUND fact alive at the same time at the Python API: an enumeration that started earlier
+        (it works on its snapshot) and a retract / a second enumeration that binds the fact's variables meanwhile"""
+        ops = [['engine', E]]
+        shapes = [lambda v: ('f', 'g', (v,)), lambda v: v, lambda v: ('f', '.', (('a', 'a'), v)), lambda v: ('f', 'g', (('f', 'f', (v,)),))]
+        nf = 1 + src.n(3)
+        for i in range(nf):
+            if src.n(3) == 0:
+                ops.append(['assert', E, ('f', 'd', (src.pick(ATOMS),)), True])
+            sh = src.pick(shapes)
+            ops.append(['assert', E, ('f', 'd', (sh(('v', 'F%d' % i)),)), src.n(4) != 0])
+        ops.append(['open', E, 1, ('f', 'd', (('v', 'Q0'),))])
+        for _ in range(src.n(3)):
+            ops.append(['step', 1])
+        sh = src.pick(shapes)
+        pat = ('f', 'd', (sh(src.pick(ATOMS) if src.n(3) else ('v', 'P0')),))
+        ops.append(['open', E, 2, ('f', 'retract', (pat,)) if src.n(3) else pat])
+        ops.append(['step', 2])
+        if src.n(2):
+            ops.append(['step', 2])
+        for _ in range(nf + 2):
+            ops.append(['step', 1])
+        ops.append(['db', E])
+        ops.append(['close', 2])
+        ops.append(['close', 1])
+        ops.append(['db', E])
+        ops.append(['run', E, ('f', 'd', (('v', 'Q1'),)), 20])
+        return {'ops': ops}
+
     def decode(self, src):
+        if src.n(6) == 5:
+            return self.decode_interleaved(src)
         ops = [['engine', E]]
         mode = src.n(3)
         facts = []
